@@ -14,6 +14,7 @@
 #include "varintDict.h"
 #include "varintElias.h"
 #include "varintRLE.h"
+#include "varintBP128.h"
 #include "varintTagged.h"
 
 #define VERIF_SHIM 1
@@ -64,6 +65,10 @@ static void run_one(const char *api, long declared, long cap, const char *why,
     } else if (!strcmp(api, "BitmapDecode")) {
         f = GUARDED(vb = varintBitmapDecode(src.p, (size_t)declared));
         ret = vb ? 1 : 0;
+    } else if (!strcmp(api, "BP128GetCount")) {
+        size_t cnt = 0;
+        f = GUARDED(cnt = varintBP128GetCount(src.p, (size_t)declared));
+        ret = (long long)(cnt > (1ULL << 40) ? (1ULL << 40) : cnt);
     } else if (!strcmp(api, "RLEGetRunCount")) {
         size_t r = 0;
         f = GUARDED(r = varintRLEGetRunCount(src.p, (size_t)declared));
